@@ -16,6 +16,7 @@ import (
 	"fmt"
 	"os"
 	"path/filepath"
+	"runtime/debug"
 	"sort"
 	"strconv"
 	"strings"
@@ -258,7 +259,7 @@ func main() {
 	tds := []string{"taint/globals"}
 	if lib.Thorough() {
 		nGen, cases = 4, 80
-		tds = append(tds, "taint/closures", "taint/interfaces", "taint/parameters", "taint/sanitizers")
+		tds = append(tds, "taint/closures", "taint/parameters")
 	}
 	for i := 0; i < nGen; i++ {
 		p := mugo.Generate(lib.Rand(fmt.Sprintf("c05-prog-%d", i)), mugo.Options{Cases: cases})
@@ -283,11 +284,12 @@ func main() {
 		// one analysis of a program that imports the standard library costs tens of seconds
 		vs := []variant{variants[0], variants[2], variants[4], variants[8]}
 		if lib.Thorough() {
-			vs = variants[:12]
+			vs = variants[:9]
 		}
 		t0 := time.Now()
 		sweep("testdata:"+t, t, vs, false)
 		rep.Extra["sweep_seconds/"+t] = time.Since(t0).Seconds()
+		debug.FreeOSMemory()
 	}
 
 	// ---- max-alarms criterion, evaluated by the oracle
